@@ -114,7 +114,7 @@ CHECKS = {
   ],
  },
  "C02": {
-  "engine": "E-HIST",
+  "engine": "E-HIST+E-ENV",
   "rule": "receiver half: breadth-first search over delivery/poll/clock/ageing/restart histories on the real stage.Stage + real receive log in virtual time, every positive poll answer compared with what is durably held validated; states deduplicated on sandbox listing + private stage state; non-trivial = at least two receptions",
   "level": "Receiver half (positive answers only for durably held validated content): every history within the bounds is executed on the real Stage. Sender half (release only after such an answer): see parts.",
   "note": "Bounds: see coverage.parts[].bound.",
@@ -122,6 +122,7 @@ CHECKS = {
   "assumptions": ["single-P deterministic schedule between harness actions", "the version a poll refers to is the one transmitted completely last under that name"],
   "parts": [
     {"pkg": "./stage", "test": "TestC02R", "shards": {"quick": 16, "thorough": 16}},
+    {"pkg": "./main", "test": "TestC02Env", "shards": {"quick": 16, "thorough": 16}},
   ],
  },
  "C08": {
@@ -133,6 +134,39 @@ CHECKS = {
   "assumptions": ["one schedule per plan (single P, idle-only clock advance)", "faults are injected at the client.Conf seams and at the gate keeper"],
   "parts": [
     {"pkg": "./main", "test": "TestC08Env", "shards": {"quick": 16, "thorough": 16}},
+  ],
+ },
+ "C03": {
+  "engine": "E-ENV",
+  "rule": "deviation-bounded enumeration of transient failures on the end-to-end rig (real sender and receiver, in-memory network, virtual time): every plan of <= d deviations is run, followed by a failure-free period of 6 h of virtual time; the goal (everything delivered, confirmed, released; nothing of an undelivered version in staging) is evaluated at the end; distinct = distinct plans",
+  "level": "Bounded liveness: every finite fault sequence up to the deviation bound is executed on the real system and delivery is required within a horizon that is an order of magnitude above the slowest legitimate recovery path.",
+  "note": "Bounds: see coverage.parts[].bound. Liveness under unbounded fault sequences is not decided; the goroutine schedule of each run is the Go runtime's.",
+  "technique": "exhaustive deviation-bounded enumeration of fault / crash / stop plans on the implementation (end-to-end, virtual time), trace and state oracles",
+  "assumptions": ["one schedule per plan (single P, idle-only clock advance)", "deviations are injected at the client.Conf seams and at the gate keeper; process death = the incarnation's goroutines end at their next environment action, its durable state is copied for the next incarnation"],
+  "parts": [
+    {"pkg": "./main", "test": "TestC03Env", "shards": {"quick": 16, "thorough": 16}},
+  ],
+ },
+ "C16": {
+  "engine": "E-ENV",
+  "rule": "enumeration of the stop moment against the sender's externally visible actions on the end-to-end rig: a graceful or immediate stop at every action, alone and after one request failure; every run must end with the sender's done signal within the stated virtual-time bound; drain completeness checked on final state and persisted cache; distinct = distinct plans",
+  "level": "Every stop moment (by action) of both kinds, within the scenarios, is executed on the real Broker with the real pipeline; termination and drain completeness are checked on each run.",
+  "note": "Bounds: see coverage.parts[].bound. Interleavings of the pipeline goroutines beyond the runtime's schedule: E-SCHED part (client package).",
+  "technique": "exhaustive deviation-bounded enumeration of fault / crash / stop plans on the implementation (end-to-end, virtual time), trace and state oracles",
+  "assumptions": ["one schedule per plan (single P, idle-only clock advance)", "deviations are injected at the client.Conf seams and at the gate keeper; process death = the incarnation's goroutines end at their next environment action, its durable state is copied for the next incarnation"],
+  "parts": [
+    {"pkg": "./main", "test": "TestC16Env", "shards": {"quick": 16, "thorough": 16}},
+  ],
+ },
+ "C07": {
+  "engine": "E-ENV",
+  "rule": "enumeration of sender crash points on the end-to-end rig: the sender dies right before each externally visible action (single and double crashes, crash after a request failure); the next incarnation is started by the real clientApp.init / Broker.recover on a copy of the durable state; wire trace and end state checked; distinct = distinct plans",
+  "level": "Every crash point (by action) up to the deviation bound is executed; recovery is run by the real code against the real receiver.",
+  "note": "Bounds: see coverage.parts[].bound. Crash points inside cache/log file writes (between tmp write and rename) are covered by the cache-write action boundary only.",
+  "technique": "exhaustive deviation-bounded enumeration of fault / crash / stop plans on the implementation (end-to-end, virtual time), trace and state oracles",
+  "assumptions": ["one schedule per plan (single P, idle-only clock advance)", "deviations are injected at the client.Conf seams and at the gate keeper; process death = the incarnation's goroutines end at their next environment action, its durable state is copied for the next incarnation"],
+  "parts": [
+    {"pkg": "./main", "test": "TestC07Env", "shards": {"quick": 16, "thorough": 16}},
   ],
  },
 }
